@@ -5,7 +5,8 @@ EXPLANATION = 'Bounded stand-in: partition value plumbing round trip per type an
 
 
 def p_parts():
-    return []
+    from ._generic import optional_parts
+    return optional_parts(("_paths", "p_paths"))
 
 
 def run(ctx):
